@@ -404,7 +404,6 @@ def run(ctx):
         check_routes(ctx, rng, fe)
     check_parse_response(ctx, rng)
     for k in ['exchange', 'concurrent-exchange', 'route-connection', 'parse-response'] + [f'reply-{r}' for r in REPLIES]:
-        if not ctx.events.get(k):
-            ctx.inconclusive(f'monitor {k} observed nothing')
+        ctx.need_event(k)
     ctx.assumptions = ['a 200 reply whose signature is bad counts as success in the current front-end (its commands use pass_all) and as failure in the legacy one',
                        'jitter clock: non-decreasing, 0..0.6 ms per reading (a legal wall clock)']
